@@ -386,6 +386,9 @@ struct World {
         if (alloc::big_refused())
             cnt.inc("fired.machine_limit");
         alloc::end_op();
+#ifdef SIM_HAVE_CUDA_SHIM
+        cuda::begin_op(0);
+#endif
         while (alloc::depth() > 0)
             alloc::leave();
         return rc;
